@@ -25,20 +25,26 @@ func (k msgServer) ExecuteOrders(goCtx context.Context, msg *types.MsgExecuteOrd
 		var err error
 		var res *ammtypes.MsgSwapByDenomResponse
 
+		// an attempt that fails must leave nothing behind: run it on a branch written only on success
+		cacheCtx, write := ctx.CacheContext()
+
 		// dispatch based on the order type
 		switch spotOrder.OrderType {
 		case types.SpotOrderType_STOPLOSS:
 			// execute the stop loss order
-			res, err = k.ExecuteStopLossOrder(ctx, spotOrder)
+			res, err = k.ExecuteStopLossOrder(cacheCtx, spotOrder)
 		case types.SpotOrderType_LIMITSELL:
 			// execute the limit sell order
-			res, err = k.ExecuteLimitSellOrder(ctx, spotOrder)
+			res, err = k.ExecuteLimitSellOrder(cacheCtx, spotOrder)
 		case types.SpotOrderType_LIMITBUY:
 			// execute the limit buy order
-			res, err = k.ExecuteLimitBuyOrder(ctx, spotOrder)
+			res, err = k.ExecuteLimitBuyOrder(cacheCtx, spotOrder)
 		case types.SpotOrderType_MARKETBUY:
 			// execute the market buy order
-			res, err = k.ExecuteMarketBuyOrder(ctx, spotOrder)
+			res, err = k.ExecuteMarketBuyOrder(cacheCtx, spotOrder)
+		}
+		if err == nil {
+			write()
 		}
 
 		// log the error if any
@@ -61,15 +67,22 @@ func (k msgServer) ExecuteOrders(goCtx context.Context, msg *types.MsgExecuteOrd
 
 		var err error
 
+		// an attempt that fails must leave nothing behind: run it on a branch written only on success
+		cacheCtx, write := ctx.CacheContext()
+
 		// dispatch based on the order type
 		switch perpetualOrder.PerpetualOrderType {
 		case types.PerpetualOrderType_LIMITOPEN:
 			// execute the limit open order
-			err = k.ExecuteLimitOpenOrder(ctx, perpetualOrder)
+			err = k.ExecuteLimitOpenOrder(cacheCtx, perpetualOrder)
 			// Disable for v1
 			// case types.PerpetualOrderType_LIMITCLOSE:
 			// 	// execute the limit close order
 			// 	err = k.ExecuteLimitCloseOrder(ctx, perpetualOrder)
+		}
+
+		if err == nil {
+			write()
 		}
 
 		// return the error if any
